@@ -83,9 +83,10 @@ def boundary_sizes(bounds, extra=(0, 1, 1024)):
     return sorted(s)
 
 
-def random_exec(rng, nops, bounds, maxlive=24, kind="bare", prestrings=False):
+def random_exec(rng, nops, bounds, maxlive=24, kind="bare", prestrings=False, elsewhere=0.12):
     """Seeded random history of one kind of cache object.  bare: boundary-biased sizes, releases in arbitrary order with a
-    (possibly different) size of the same class, foreign pointers, clears in between, now and then clearAll + destroy + a
+    (possibly different) size of the same class or (probability `elsewhere`) with a size of another class - then the buffer
+    stays in use and is released again later -, foreign pointers, clears in between, now and then clearAll + destroy + a
     new cache; ends with clearAll.  global: buffers requested through the adaptor and by SimpleString objects, released in
     arbitrary order, now and then the global cache is destroyed with buffers still in use and constructed again; ends with
     the destruction of the global cache while buffers are in use.  prestrings: strings created before the global cache are destroyed /
@@ -107,6 +108,16 @@ def random_exec(rng, nops, bounds, maxlive=24, kind="bare", prestrings=False):
             return rng.choice([n, limit + 1, 1024, rng.randrange(limit + 1, 1025)])
         lo = max([b for b in bounds if b < c] + [-1]) + 1
         return rng.choice([n, lo, c, rng.randrange(lo, c + 1)])
+
+    def other_class_size(n):
+        """a size of any class but n's own: another cached class (its bounds or inside), or across the cached / non-cached border"""
+        c = cls(n)
+        others = [b for b in bounds if b != c] + ([0] if c != 0 else [])
+        o = rng.choice(others)
+        if o == 0:
+            return rng.choice([limit + 1, 1024, rng.randrange(limit + 1, 1025)])
+        lo = max([b for b in bounds if b < o] + [-1]) + 1
+        return rng.choice([lo, o, rng.randrange(lo, o + 1)])
     ex, live, na, strs = [], {}, 0, set()
     pre, npre = set(), 0
 
@@ -149,6 +160,8 @@ def random_exec(rng, nops, bounds, maxlive=24, kind="bare", prestrings=False):
             k = rng.choice(sorted(live))
             if k in strs:
                 ex.append(["sdel", k, live.pop(k)])
+            elif rng.random() < elsewhere:        # a size of another class: an unknown release, the buffer stays in use
+                ex.append(["xdealloc", k, other_class_size(live[k])])
             else:
                 ex.append(["dealloc", k, same_class_size(live.pop(k))])
         elif glob:
@@ -268,6 +281,14 @@ def run(ctx):
     D = 5 if quick else 6                 # the first call of a behaviour constructs the cache object
     nopre = {"maxpre": 0, "presizes": "1", "fix": "0", "outn": limit + 50}
     unknown_under_global = set()
+    elsewhere = {"bare": set(), "global": set()}     # executions releasing a buffer with a size of another class, by kind of cache
+
+    def note_elsewhere(e, key):
+        kind = None
+        for l in e:
+            kind = {"new": "bare", "gnew": "global"}.get(l[0], kind)
+            if l[0] == "xdealloc":
+                elsewhere[kind].add(key)
     for (lab, gen, sim, depth) in [
         ("bfs", {"classes": cl, "sizes": "%d, %d, %d" % (b0, b0 + 1, limit + 1), "maxlive": 3, "D": D,
                  "fsizes": "%d, %d" % (b0 + 1, limit + 50), "kinds": '"bare"', **nopre}, None, None),
@@ -289,8 +310,9 @@ def run(ctx):
         conf(lab, execs, bounds, t, p, meta=meta, tlc_timeout=1800)
         ctx.evaluations += sum(len(e) for e in execs)
         for e in execs:
-            if any(l[0] in ("dealloc", "sdel", "foreign", "clearcache", "pdel", "pset", "pcat") for l in e) or held_at_destroy(e):
+            if any(l[0] in ("dealloc", "xdealloc", "sdel", "foreign", "clearcache", "pdel", "pset", "pcat") for l in e) or held_at_destroy(e):
                 nontrivial.add(json.dumps(e))
+            note_elsewhere(e, json.dumps(e))
             if any(l[0] in ("pdel", "pset", "pcat") for l in e):
                 unknown_under_global.add(json.dumps(e))
             if held_at_destroy(e):
@@ -304,6 +326,7 @@ def run(ctx):
     ctx.evaluations += sum(len(e) for e in execs)
     for e in execs:
         nontrivial.add(json.dumps(e[:60]))
+        note_elsewhere(e, json.dumps(e[:60]))
         if held_at_destroy(e):
             destroyed_in_use.add(json.dumps(e[:60]))
         if any(l[0] in ("pdel", "pset", "pcat") for l in e):
@@ -311,6 +334,10 @@ def run(ctx):
     ctx.notes["executions_releasing_unknown_buffers_to_a_global_cache"] = len(unknown_under_global)
     if not unknown_under_global:
         raise Infra("no generated execution releases a buffer the cache does not know while a global cache is installed")
+    ctx.notes["executions_releasing_a_buffer_with_a_size_of_another_class"] = {k: len(v) for k, v in elsewhere.items()}
+    if not elsewhere["bare"] or not elsewhere["global"]:
+        raise Infra("no generated execution releases a buffer with a size of another class (bare: %d, global: %d)"
+                    % (len(elsewhere["bare"]), len(elsewhere["global"])))
     ctx.notes["executions_destroying_a_global_cache_with_buffers_in_use"] = len(destroyed_in_use)
     if not destroyed_in_use:
         raise Infra("no generated execution destroys a global cache while buffers are in use")
@@ -319,11 +346,14 @@ def run(ctx):
              "simulation to depth 40 over the sizes b-1, b, b+1 around every measured class bound, 0, 1, 1024, both kinds) plus seeded random "
              "histories (sizes 0..1024, alternately bare / global), each run on the real SimpleStringInternalCache (bare) or the real "
              "GlobalSimpleStringCache + SimpleStringCacheAllocator + SimpleString objects (global) over a recording allocator under ASan/UBSan; "
-             "distinct = distinct call sequences; non-trivial = contains a release, a foreign release, a clearCache, an operation on a "
+             "distinct = distinct call sequences; non-trivial = contains a release (with a size of its own or of another class), a foreign release, a clearCache, an operation on a "
              "string that predates the global cache, or the destruction of a global cache with buffers still in use",
         distinct_nontrivial=len(nontrivial), exhaustive=False,
         assumptions=["the class table (bounds %s) is measured from the code: class = maximal run of sizes a fresh cache keeps after release and serves with the same capacity" % bounds,
-                     "releases use a size of the class the buffer was requested in (the property's quantifier); cross-class wrong sizes and double releases are not generated",
+                     "a release names a buffer in use and any size: a size of the class the buffer was requested in is a proper release; a size of "
+                     "another class (another cached class, or across the cached / non-cached border, either way) is a release of a buffer the cache "
+                     "does not know there: the one-time warning, the buffer stays in use (and is released properly later or held to the end); "
+                     "double releases are not generated",
                      "which idle block of the class is reused, and whether one is reused, is left to the implementation",
                      "destroyed = the GlobalSimpleStringCache (cache + adaptor + installation) goes away, with or without buffers in use; a bare "
                      "SimpleStringInternalCache leaves clearing to its owner: its destruction is only exercised after clearAll (its destructor "
